@@ -661,3 +661,205 @@ func VH04c_inflight() {
 	verif.Reach("inflight-checked")
 	sock.Close()
 }
+
+// VH03e_late_reply: directed family "the previous request ended in way W, then
+// its reply arrives late while the next request is outstanding". W: receive
+// deadline expired / answered and received / cancelled because its connection
+// was lost with retries off / superseded by the next Send while Recv was
+// pending / Recv never called. The late frame (id of the previous request) and
+// a frame with an arbitrary id (solver variable) must not complete the Recv
+// of the new request; the genuine reply must.
+func VH03e_late_reply() {
+	lab := "C03/late-reply"
+	ways := []string{"recv-timeout", "answered", "lost-retries-off", "superseded-during-recv", "never-received"}
+	w := ways[verif.Choice("way", len(ways))]
+	lab += "/" + w
+	sock := vp.New("req")
+	side := vt.Listen(sock, "a")
+	p0 := side.Peer("p0")
+	pipes := []*vt.Pipe{p0}
+	useCtx := verif.Choice("ctx", 2) == 1
+	type endpoint interface {
+		Send([]byte) error
+		RecvMsg() (*mangos.Message, error)
+		SetOption(string, interface{}) error
+	}
+	var ep endpoint = sock
+	if useCtx {
+		c, err := sock.OpenContext()
+		verif.Assert(err == nil, lab+"/open-context")
+		ep = c
+	}
+	d := verif.Duration("recv-deadline")
+	verif.Assume(verif.And(d >= 1, d <= time.Hour))
+	if w == "recv-timeout" {
+		verif.Assert(ep.SetOption(mangos.OptionRecvDeadline, d) == nil, lab+"/set-recv-deadline")
+		// retries later than any deadline in range, so that the next timer to fire is the deadline
+		verif.Assert(ep.SetOption(mangos.OptionRetryTime, 2*time.Hour) == nil, lab+"/set-retry")
+	}
+	if w == "lost-retries-off" {
+		verif.Assert(ep.SetOption(mangos.OptionRetryTime, time.Duration(0)) == nil, lab+"/set-retry-0")
+	}
+	verif.Assert(ep.Send([]byte{'A'}) == nil, lab+"/send-A")
+	verif.Quiesce()
+	idA, okA := findID(pipes, 'A')
+	verif.Assert(okA, lab+"/A-transmitted")
+	if !okA {
+		return
+	}
+	frame := func(id uint32, b byte) []byte { return []byte{byte(id >> 24), byte(id >> 16), byte(id >> 8), byte(id), b} }
+	var m0 *mangos.Message
+	var e0 error
+	switch w {
+	case "recv-timeout":
+		g := verif.Go("recv-A", func() { m0, e0 = ep.RecvMsg() })
+		verif.Quiesce()
+		t0 := verif.Now()
+		verif.Assert(!g.Done(), lab+"/recv-returned-without-reply")
+		// timers fire in any order (decision): keep the schedules in which the deadline timer is among the first three
+		for i := 0; i < 3 && !g.Done(); i++ {
+			verif.FireTimer()
+		}
+		if !g.Done() {
+			verif.Assume(false)
+		}
+		verif.Assert(e0 == mangos.ErrRecvTimeout, lab+"/recv-deadline-error-kind")
+		verif.Assert(verif.Now() >= t0+d, "C18/req/recv-timeout-before-the-deadline")
+		ep.SetOption(mangos.OptionRecvDeadline, time.Duration(0))
+	case "answered":
+		p0.Deliver(frame(idA, 'a'))
+		g := verif.Go("recv-A", func() { m0, e0 = ep.RecvMsg() })
+		verif.Quiesce()
+		verif.Assert(g.Done() && e0 == nil && len(m0.Body) == 1 && m0.Body[0] == 'a', lab+"/first-exchange")
+	case "lost-retries-off":
+		g := verif.Go("recv-A", func() { m0, e0 = ep.RecvMsg() })
+		verif.Quiesce()
+		p0.Drop()
+		verif.Quiesce()
+		verif.Assert(g.Done() && e0 == mangos.ErrCanceled, lab+"/loss-with-retries-off-did-not-cancel")
+		p0 = side.Peer("p1")
+		pipes = append(pipes, p0)
+	case "superseded-during-recv":
+		g := verif.Go("recv-A", func() { m0, e0 = ep.RecvMsg() })
+		verif.Quiesce()
+		defer func() { _ = g }()
+	case "never-received":
+	}
+	verif.Assert(ep.Send([]byte{'B'}) == nil, lab+"/send-B")
+	verif.Quiesce()
+	idB, okB := findID(pipes, 'B')
+	verif.Assert(okB, lab+"/B-transmitted")
+	if !okB {
+		return
+	}
+	verif.Assert(idB != idA, lab+"/request-ids-distinct")
+	var m *mangos.Message
+	var rerr error
+	rg := verif.Go("recv-B", func() { m, rerr = ep.RecvMsg() })
+	verif.Quiesce()
+	// the late reply to A, then an arbitrary id
+	p0.Deliver(frame(idA, 'l'))
+	verif.Quiesce()
+	verif.Assert(!rg.Done(), lab+"/late-reply-to-the-previous-request-delivered")
+	x := verif.Uint32("foreign-id")
+	verif.Assume(x != idB)
+	p0.Deliver(frame(x, 'x'))
+	verif.Quiesce()
+	verif.Assert(!rg.Done(), lab+"/reply-with-foreign-id-delivered")
+	if rg.Done() {
+		return
+	}
+	p0.Deliver(frame(idB, 'b'))
+	verif.Quiesce()
+	verif.Assert(rg.Done() && rerr == nil, lab+"/reply-to-current-request-not-delivered")
+	if rg.Done() && rerr == nil {
+		verif.Assert(len(m.Body) == 1 && m.Body[0] == 'b', lab+"/wrong-reply-delivered")
+	}
+	// and a duplicate of B's reply afterwards is not a reply to anything
+	var m2 *mangos.Message
+	var e2 error
+	p0.Deliver(frame(idB, 'd'))
+	g2 := verif.Go("recv-dup", func() { m2, e2 = ep.RecvMsg() })
+	verif.Quiesce()
+	verif.Assert(g2.Done() && e2 == mangos.ErrProtoState, lab+"/recv-without-request-after-a-duplicate-reply")
+	_ = m2
+	verif.Reach("late-reply-checked")
+	sock.Close()
+}
+
+// VH04d_retry_change: the retry option is changed while a request is
+// outstanding (0 -> d or d -> 0, d a solver variable), then the connection
+// that carried the request is lost while another peer is connected. What
+// happens follows the setting in force at that moment: retries off => the
+// pending Recv is cancelled and nothing is re-sent; retries on => the request
+// is re-sent, byte-identical, to the other peer.
+func VH04d_retry_change() {
+	lab := "C04/retry-change"
+	sock := vp.New("req")
+	d := verif.Duration("retry")
+	verif.Assume(verif.And(d >= 1, d <= time.Hour))
+	offFirst := verif.Choice("off-first", 2) == 1
+	useCtx := verif.Choice("ctx", 2) == 1
+	type endpoint interface {
+		Send([]byte) error
+		RecvMsg() (*mangos.Message, error)
+		SetOption(string, interface{}) error
+		GetOption(string) (interface{}, error)
+	}
+	var ep endpoint = sock
+	if useCtx {
+		c, err := sock.OpenContext()
+		verif.Assert(err == nil, lab+"/open-context")
+		ep = c
+	}
+	r1, r2 := d, time.Duration(0)
+	if offFirst {
+		r1, r2 = 0, d
+	}
+	verif.Assert(ep.SetOption(mangos.OptionRetryTime, r1) == nil, lab+"/set-retry-1")
+	side := vt.Listen(sock, "a")
+	p0 := side.Peer("p0")
+	verif.Assert(ep.Send([]byte{1, 'A'}) == nil, lab+"/send")
+	verif.Quiesce()
+	verif.Assert(len(p0.Sent) == 1, lab+"/first-transmission-exactly-once")
+	if len(p0.Sent) != 1 {
+		return
+	}
+	var rerr error
+	rg := verif.Go("recv", func() { _, rerr = ep.RecvMsg() })
+	verif.Quiesce()
+	p1 := side.Peer("p1")
+	verif.Assert(len(p1.Sent) == 0, lab+"/request-sent-twice-without-cause")
+	// the option changes while the request is outstanding
+	verif.Assert(ep.SetOption(mangos.OptionRetryTime, r2) == nil, lab+"/set-retry-2")
+	g, gerr := ep.GetOption(mangos.OptionRetryTime)
+	verif.Assert(gerr == nil && g.(time.Duration) == r2, "C19/req/RETRY-TIME/get-returns-set-value")
+	p0.Drop()
+	verif.Quiesce()
+	if offFirst {
+		// retries are on now
+		verif.Assert(!rg.Done(), lab+"/recv-ended-by-connection-loss-although-retries-are-on")
+		verif.Assert(len(p1.Sent) == 1, lab+"/no-resend-after-connection-loss")
+		if len(p1.Sent) == 1 {
+			verif.Assert(verif.BytesEq(p1.Sent[0].Bytes(), p0.Sent[0].Bytes()), lab+"/retransmission-not-identical")
+			h := p1.Sent[0].H
+			p1.Deliver([]byte{h[0], h[1], h[2], h[3], 'R'})
+			verif.Quiesce()
+			verif.Assert(rg.Done() && rerr == nil, lab+"/reply-not-delivered")
+		}
+		verif.Reach("resent-after-enabling-retries")
+	} else {
+		// retries are off now
+		verif.Assert(len(p1.Sent) == 0, lab+"/transmitted-after-completion-or-with-retries-off")
+		verif.Assert(rg.Done(), lab+"/retries-off-loss-must-cancel-recv")
+		if rg.Done() {
+			verif.Assert(rerr == mangos.ErrCanceled, lab+"/retries-off-loss-error-kind")
+		}
+		for i := 0; i < 3; i++ {
+			verif.FireTimer()
+		}
+		verif.Assert(len(p1.Sent) == 0, lab+"/retry-timer-fired-although-retries-are-off")
+		verif.Reach("cancelled-after-disabling-retries")
+	}
+	sock.Close()
+}
